@@ -153,7 +153,8 @@ pub enum Exit {
 pub enum Step {
 	Write(usize, u64),
 	Read(usize),
-	Dbg(usize),
+	/// format collection c; `Some(x)`: the payload of lock x panics in its own Debug impl
+	Dbg(usize, Option<usize>),
 	GetKey,
 	IsPoisoned(usize),
 }
@@ -172,7 +173,7 @@ pub enum Stmt {
 	Get,
 	DropKey,
 	ForgetKey,
-	Dbg(usize),
+	Dbg(usize, Option<usize>),
 	IsPoisoned(usize),
 	ClearPoison(usize),
 	/// `try_new` of a boxed (B) / ref (F) / retrying (T) collection over the expression
@@ -184,7 +185,8 @@ impl Step {
 		match self {
 			Step::Write(p, v) => format!("w{p}={v}"),
 			Step::Read(p) => format!("r{p}"),
-			Step::Dbg(c) => format!("d{c}"),
+			Step::Dbg(c, None) => format!("d{c}"),
+			Step::Dbg(c, Some(x)) => format!("d{c}!{x}"),
 			Step::GetKey => "g".into(),
 			Step::IsPoisoned(c) => format!("i{c}"),
 		}
@@ -202,7 +204,15 @@ impl Step {
 				Step::Write(p, parse_nat(b, &mut i)? as u64)
 			}
 			b'r' => Step::Read(parse_nat(b, &mut i)?),
-			b'd' => Step::Dbg(parse_nat(b, &mut i)?),
+			b'd' => {
+				let c = parse_nat(b, &mut i)?;
+				if b.get(i) == Some(&b'!') {
+					i += 1;
+					Step::Dbg(c, Some(parse_nat(b, &mut i)?))
+				} else {
+					Step::Dbg(c, None)
+				}
+			}
 			b'i' => Step::IsPoisoned(parse_nat(b, &mut i)?),
 			b'g' if b.len() == 1 => Step::GetKey,
 			_ => return None,
@@ -216,7 +226,8 @@ impl Stmt {
 			Stmt::Get => "get".into(),
 			Stmt::DropKey => "dropkey".into(),
 			Stmt::ForgetKey => "forgetkey".into(),
-			Stmt::Dbg(c) => format!("dbg:{c}"),
+			Stmt::Dbg(c, None) => format!("dbg:{c}"),
+			Stmt::Dbg(c, Some(x)) => format!("dbg:{c}:{x}"),
 			Stmt::IsPoisoned(c) => format!("isp:{c}"),
 			Stmt::ClearPoison(c) => format!("clr:{c}"),
 			Stmt::TryNew(k, e) => format!("trynew:{}:{}", *k as char, e.text()),
@@ -252,7 +263,8 @@ impl Stmt {
 			["get"] => Stmt::Get,
 			["dropkey"] => Stmt::DropKey,
 			["forgetkey"] => Stmt::ForgetKey,
-			["dbg", c] => Stmt::Dbg(c.parse().ok()?),
+			["dbg", c] => Stmt::Dbg(c.parse().ok()?, None),
+			["dbg", c, x] => Stmt::Dbg(c.parse().ok()?, Some(x.parse().ok()?)),
 			["isp", c] => Stmt::IsPoisoned(c.parse().ok()?),
 			["clr", c] => Stmt::ClearPoison(c.parse().ok()?),
 			["trynew", k, e] => Stmt::TryNew(*k.as_bytes().first()?, parse_expr_str(e)?),
